@@ -101,6 +101,27 @@ def run(chk):
                "periods: results do not depend on how calls are batched)", not bad,
                derived=("in-place %s on a value aliasing %s" % (bad[0].how, sorted(t for t in bad[0].origins if t.startswith("p:")))) if bad else
                "no in-place effect on an argument", loc=bad[0].loc if bad else r.fi.loc(), stmt=bad[0].stmt if bad else None)
+    # integer-typed containers (digitiser counts as the record; whole-second periods): no real value may land in a buffer that inherits the
+    # integer dtype -- the response of one period would depend on the dtype of the list it is passed in
+    from ..tyob import no_truncation
+    no_truncation(chk, "R-LIN", NJR, lambda I, st, fi: {fi.params[0]: rec_array(fi.params[0], dtype="int"), fi.params[1]: pos_scalar("dt", DT),
+                                                        fi.params[2]: periods_av(False), fi.params[3]: xi_av()},
+                  "eqsig/sdof.py:nigam_and_jennings_response(integer-typed record)", atoms=(R, DT, T), what="an integer-typed record")
+    for q in ("eqsig.sdof.pseudo_response_spectra", "eqsig.sdof.true_response_spectra"):
+        no_truncation(chk, "R-ELEMWISE", q, lambda I, st, fi: {fi.params[0]: rec_array(fi.params[0]), fi.params[1]: pos_scalar("dt", DT),
+                                                               fi.params[2]: periods_av(False).replace(dtype="int"), fi.params[3]: xi_av()},
+                      "eqsig/sdof.py:%s(integer-typed periods)" % q.split(".")[-1], atoms=(R, DT, T), what="integer-typed periods")
+    # refinement: the record handed to the integrator at a finer step is the linear interpolation AT the instants k * dt / factor -- the
+    # abscissa of the interpolation is arange(new_npts) / factor (the original samples recur every `factor` positions), not a grid stretched
+    # over the record
+    ra = analyse(chk, "eqsig.fns.time_step.interp_array_to_approx_dt", lambda I, st, fi: dict(values=rec_array("values"), dt=pos_scalar("dt", DT),
+                                                                                           target_dt=pos_scalar("target_dt", None)))
+    ipx = [e for e in ra.I.events if e.kind == "lib-call" and e.name == "numpy.interp"]
+    for e in ipx[:1]:
+        x_ = e.args[0]
+        chk.ob("R-CALLS", "eqsig/fns/time_step.py:interp_array_to_approx_dt{refined instants}", "the refined record is sampled at arange(new_npts) / factor",
+               "arange0" in x_.tags and "linspace" not in x_.tags, derived="abscissa built from %s" % sorted(t for t in x_.tags if t in ("arange0", "linspace")),
+               loc=e.loc, stmt=e.stmt, inconclusive=("arange0" not in x_.tags and "linspace" not in x_.tags))
     chk.floor("R-CALLS", 4)
     chk.floor("R-LIN", 40)
     chk.floor("R-CAUSAL", 4)
